@@ -5,7 +5,7 @@ use crypto_bigint::subtle::{
     Choice, ConditionallyNegatable, ConditionallySelectable, ConstantTimeEq, ConstantTimeGreater,
     ConstantTimeLess, CtOption,
 };
-use crypto_bigint::{BoxedUint, ConstantTimeSelect, Int, Integer, Limb, Uint, Zero};
+use crypto_bigint::{BoxedUint, ConstChoice, ConstantTimeSelect, Int, Integer, Limb, NonZero, Odd, Uint, Zero};
 use std::hash::{DefaultHasher, Hash, Hasher};
 
 fn ord(o: Ordering) -> &'static str {
@@ -97,12 +97,166 @@ fn fixed<const N: usize>(op: &str, a: &[&str]) -> Option<String> {
             let some = agree(&[cchoice(o.is_some()), bit(!bool::from(o.is_none())), bit(opt.is_some())]);
             format!("{some} {} {} {}", uhex(&o.unwrap_or(d)), choice(ct.is_some()), uhex(&ct.unwrap_or(d)))
         }
+        // ---- coverage round: num-traits style constructors / tests of `Uint` (src/uint.rs 258-299) and the
+        // provided methods `one_like`, `set_zero`, `zero_like` of src/traits.rs; prints
+        // one  from_limb_like(l, x)  nlimbs  zero  is_zero  is_one  one_like  set_zero  zero_like
+        ("c06.u.numtests", [x, l]) => {
+            let (x, l) = (arg!(uint::<N>(x)), arg!(limb(l)));
+            let one = agree(&[uhex(&<Uint<N> as num_traits::One>::one()), uhex(&<Uint<N> as Integer>::one())]);
+            let zero = agree(&[uhex(&<Uint<N> as num_traits::Zero>::zero()), uhex(&<Uint<N> as Zero>::zero())]);
+            let mut z = x;
+            Zero::set_zero(&mut z);
+            format!(
+                "{one} {} {} {zero} {} {} {} {} {}",
+                uhex(&<Uint<N> as Integer>::from_limb_like(l, &x)),
+                Integer::nlimbs(&x),
+                bit(num_traits::Zero::is_zero(&x)),
+                bit(num_traits::One::is_one(&x)),
+                uhex(&<Uint<N> as Integer>::one_like(&x)),
+                uhex(&z),
+                uhex(&<Uint<N> as Zero>::zero_like(&x))
+            )
+        }
+        // `Int` (src/int.rs 221-235): zero  is_zero  one  is_one  set_zero  zero_like
+        ("c06.i.numtests", [x]) => {
+            let x = arg!(int::<N>(x));
+            let zero = agree(&[ihex(&<Int<N> as num_traits::Zero>::zero()), ihex(&<Int<N> as Zero>::zero())]);
+            let mut z = x;
+            Zero::set_zero(&mut z);
+            format!(
+                "{zero} {} {} {} {} {}",
+                bit(num_traits::Zero::is_zero(&x)),
+                ihex(&<Int<N> as num_traits::One>::one()),
+                bit(num_traits::One::is_one(&x)),
+                ihex(&z),
+                ihex(&<Int<N> as Zero>::zero_like(&x))
+            )
+        }
+        // comparisons through the `Odd` / `NonZero` wrappers (src/odd.rs 110-146, src/non_zero.rs 213-220); prints
+        // [x == Odd(y)  x.partial_cmp(&Odd(y))  x < Odd(y)  x > Odd(y)] (`-` each when y is even)
+        // Odd(x).ct_eq(&Odd(y)) (`-` unless both odd)   NonZero(x).ct_eq(&NonZero(y)) (`-` unless both nonzero)
+        ("c06.u.wrapped_cmp", [x, y]) => {
+            let (x, y) = (arg!(uint::<N>(x)), arg!(uint::<N>(y)));
+            let oy: Option<Odd<Uint<N>>> = Odd::new(y).into();
+            let ox: Option<Odd<Uint<N>>> = Odd::new(x).into();
+            let first = match &oy {
+                Some(oy) => format!(
+                    "{} {} {} {}",
+                    agree(&[bit(x == *oy), bit(!(x != *oy))]),
+                    ord(x.partial_cmp(oy).unwrap()),
+                    bit(x < *oy),
+                    bit(x > *oy)
+                ),
+                None => "- - - -".into(),
+            };
+            let oeq = match (&ox, &oy) {
+                (Some(a), Some(b)) => choice(a.ct_eq(b)),
+                _ => "-".into(),
+            };
+            let nx: Option<NonZero<Uint<N>>> = NonZero::new(x).into();
+            let ny: Option<NonZero<Uint<N>>> = NonZero::new(y).into();
+            let neq = match (&nx, &ny) {
+                (Some(a), Some(b)) => choice(a.ct_eq(b)),
+                _ => "-".into(),
+            };
+            format!("{first} {oeq} {neq}")
+        }
         _ => return None,
     })
 }
 
+/// a downstream type that implements only the required method of `ConstantTimeSelect`, so that the PROVIDED
+/// `ct_assign` / `ct_swap` (src/traits.rs 48-60) are the ones executed (every crate type overrides them)
+#[derive(Clone)]
+struct OnlySelect(BoxedUint);
+impl ConstantTimeSelect for OnlySelect {
+    fn ct_select(a: &Self, b: &Self, choice: Choice) -> Self {
+        OnlySelect(BoxedUint::ct_select(&a.0, &b.0, choice))
+    }
+}
+
 pub fn dispatch(op: &str, a: &[&str]) -> Option<String> {
     match (op, a) {
+        // ---- coverage round: `Limb` num-traits forms (src/limb.rs 127-143) and the provided `set_zero` / `zero_like`; prints
+        // zero  is_zero  one  is_one  set_zero  zero_like
+        ("c06.w.numtests", [x]) => {
+            let x = arg!(limb(x));
+            let zero = agree(&[lhex(<Limb as num_traits::Zero>::zero()), lhex(<Limb as Zero>::zero())]);
+            let mut z = x;
+            Zero::set_zero(&mut z);
+            Some(format!(
+                "{zero} {} {} {} {} {}",
+                agree(&[bit(num_traits::Zero::is_zero(&x)), choice(Zero::is_zero(&x))]),
+                lhex(<Limb as num_traits::One>::one()),
+                bit(num_traits::One::is_one(&x)),
+                lhex(z),
+                lhex(<Limb as Zero>::zero_like(&x))
+            ))
+        }
+        // `ConstChoice: PartialEq` (src/const_choice.rs 281-285): ==  !=
+        ("c06.w.choice_eq", [p, q]) => {
+            let (p, q): (ConstChoice, ConstChoice) = (arg!(toconst(p)), arg!(toconst(q)));
+            Some(format!("{} {}", bit(p == q), bit(p != q)))
+        }
+        // `BoxedUint` (src/uint/boxed.rs 105-110, 300-352); prints
+        // is_one  default  one  from_limb_like(l, x)  nlimbs  zero  is_zero  set_zero  is_one(num)  one_like  zero_like
+        ("c06.b.numtests", [n, x, l]) => {
+            let (x, l) = (arg!(boxed(x, arg!(dec(n)))), arg!(limb(l)));
+            let one = agree(&[bhexlen(&<BoxedUint as num_traits::One>::one()), bhexlen(&<BoxedUint as Integer>::one())]);
+            let zero = agree(&[bhexlen(&<BoxedUint as num_traits::Zero>::zero()), bhexlen(&<BoxedUint as Zero>::zero())]);
+            let isz = agree(&[bit(num_traits::Zero::is_zero(&x)), choice(Zero::is_zero(&x))]);
+            let mut z = x.clone();
+            Zero::set_zero(&mut z);
+            Some(format!(
+                "{} {} {one} {} {} {zero} {isz} {} {} {} {}",
+                choice(x.is_one()),
+                bhexlen(&BoxedUint::default()),
+                bhexlen(&<BoxedUint as Integer>::from_limb_like(l, &x)),
+                Integer::nlimbs(&x),
+                bhexlen(&z),
+                bit(num_traits::One::is_one(&x)),
+                bhexlen(&<BoxedUint as Integer>::one_like(&x)),
+                bhexlen(&<BoxedUint as Zero>::zero_like(&x))
+            ))
+        }
+        // the PROVIDED `ConstantTimeSelect::ct_assign` / `ct_swap`: assign  swap.0  swap.1
+        ("c06.b.select_default", [n, x, y, c]) => {
+            let n = arg!(dec(n));
+            let (x, y, c) = (OnlySelect(arg!(boxed(x, n))), OnlySelect(arg!(boxed(y, n))), arg!(tochoice(c)));
+            let mut t = x.clone();
+            t.ct_assign(&y, c);
+            let (mut p, mut q) = (x.clone(), y.clone());
+            OnlySelect::ct_swap(&mut p, &mut q, c);
+            Some(format!("{} {} {}", bhexlen(&t.0), bhexlen(&p.0), bhexlen(&q.0)))
+        }
+        // `BoxedUint` vs `Odd<BoxedUint>` (src/odd.rs 148-160) and the wrappers' ct_eq, any two precisions
+        ("c06.b.wrapped_cmp", [na, x, nb, y]) => {
+            let x = arg!(boxed(x, arg!(dec(na))));
+            let y = arg!(boxed(y, arg!(dec(nb))));
+            let oy: Option<Odd<BoxedUint>> = Odd::new(y.clone()).into();
+            let ox: Option<Odd<BoxedUint>> = Odd::new(x.clone()).into();
+            let first = match &oy {
+                Some(oy) => format!(
+                    "{} {} {} {}",
+                    agree(&[bit(x == *oy), bit(!(x != *oy))]),
+                    ord(x.partial_cmp(oy).unwrap()),
+                    bit(x < *oy),
+                    bit(x > *oy)
+                ),
+                None => "- - - -".into(),
+            };
+            let oeq = match (&ox, &oy) {
+                (Some(a), Some(b)) => choice(a.ct_eq(b)),
+                _ => "-".into(),
+            };
+            let nx: Option<NonZero<BoxedUint>> = NonZero::new(x).into();
+            let ny: Option<NonZero<BoxedUint>> = NonZero::new(y).into();
+            let neq = match (&nx, &ny) {
+                (Some(a), Some(b)) => choice(a.ct_eq(b)),
+                _ => "-".into(),
+            };
+            Some(format!("{first} {oeq} {neq}"))
+        }
         ("c06.w.cmp", [x, y]) => {
             let (x, y) = (arg!(limb(x)), arg!(limb(y)));
             let eq = agree(&[choice(x.ct_eq(&y)), bit(x == y), bit(x.eq_vartime(&y)), choice(!x.ct_ne(&y))]);
